@@ -52,14 +52,23 @@ def worker(ctx, job):
         "relative-dotdot": ("../target-file", os.path.join(base, "work", "target-file"), os.path.join(base, "work", "sub")),
         "via-symlinked-dir": (os.path.join(base, "sym-dir", "target-file"), os.path.join(base, "real-dir", "target-file"), os.path.join(base, "work")),
     }
-    entries = ["link_to", "link_to_hash", "opts", "opts_hash", "opts_wrong_size", "opts_wrong_integrity", "session"]
+    entries = ["link_to", "link_to_hash", "opts", "opts_hash", "opts_wrong_size", "opts_wrong_integrity", "session", "opts_size_smaller", "opts_size_zero", "session_append"]
     partials = [0, 1, 8, 9, 16384, "all"]
     events = ["none", "modify", "truncate", "extend", "remove", "replace"]
     lookups_read = [("read_sync", "read_hash_sync")] + ([("read", "read_hash")] if is_async(flavour) else [])
     for fname, (arg, real, cwd) in forms.items():
         srv.call({"op": "chdir", "dir": cwd})
         for entry in entries:
-            for partial in (partials if entry == "session" else [None]):
+            if entry in ("opts_size_smaller", "opts_size_zero") and n == 0:
+                continue
+            plist = partials if entry == "session" else [None]
+            if entry == "opts_size_smaller":
+                plist = [None, n - 1, "all"] if n > 1 else [None, "all"]
+            elif entry == "opts_size_zero":
+                plist = [None, 1]
+            elif entry == "session_append":
+                plist = ["all", 0]
+            for partial in plist:
                 for event in (events if entry in ("link_to", "session", "opts") else ["none"]):
                     for pre in ((False, True) if (fname == "absolute" and entry in ("link_to", "link_to_hash") and event in ("none", "modify")) else (False,)):
                         fsutil.wipe(cache)
@@ -89,6 +98,10 @@ def worker(ctx, job):
                                 o = {}
                                 if entry == "opts_wrong_size":
                                     o["size"] = n + 1
+                                elif entry == "opts_size_smaller":
+                                    o["size"] = n - 1
+                                elif entry == "opts_size_zero":
+                                    o["size"] = 0
                                 elif entry == "opts_wrong_integrity":
                                     o["integrity"] = ctx.sri("sha256", data + b"x")
                                 elif entry == "opts":
@@ -100,7 +113,7 @@ def worker(ctx, job):
                             rep = srv.call(req)
                             if "ok" in rep:
                                 h = rep["ok"]["h"]
-                                if entry == "session" and partial:
+                                if entry in ("session", "opts_size_smaller", "opts_size_zero", "session_append") and partial:
                                     if partial == "all":
                                         rr = srv.call({"op": "r_read_to_end", "h": h})
                                         if not ("ok" in rr and wr.data_matches(rr["ok"], data)):
@@ -109,17 +122,24 @@ def worker(ctx, job):
                                         rr = srv.call({"op": "r_read", "h": h, "n": partial})
                                         if "ok" not in rr or rr["ok"]["len"] != min(partial, n) or (rr["ok"].get("hex") is not None and bytes.fromhex(rr["ok"]["hex"]) != data[:partial]):
                                             V.violation(res, sig + ":linker-read-wrong", "partial read through the linker gave %r" % rr, replay)
+                                if entry == "session_append":
+                                    # the target grows between open (where its size was taken) and commit
+                                    with open(real, "ab") as fh:
+                                        fh.write(b"+")
                                 rep = srv.call({"op": "l_commit", "h": h})
+                                if entry == "session_append":
+                                    with open(real, "r+b") as fh:
+                                        fh.truncate(n)
                         res["transitions"] += 1
                         cls = classify(rep)
                         V.outcome(res, "%s:%s" % (entry, cls))
                         if not ("ok" in rep or "err" in rep) or rep.get("panics"):
                             V.violation(res, sig + ":" + cls, "call did not return a value: %r" % rep, replay)
                             continue
-                        if stat_sig(real) != sig0 or open(real, "rb").read() != data:
+                        if entry != "session_append" and (stat_sig(real) != sig0 or open(real, "rb").read() != data):
                             V.violation(res, sig + ":target-modified", "linking touched the target (inode/mtime/size %s -> %s)" % (sig0, stat_sig(real)), replay)
-                        if entry in ("opts_wrong_size", "opts_wrong_integrity"):
-                            want = "SizeMismatch" if entry == "opts_wrong_size" else "IntegrityError"
+                        if entry in ("opts_wrong_size", "opts_wrong_integrity", "opts_size_smaller", "opts_size_zero", "session_append"):
+                            want = "IntegrityError" if entry == "opts_wrong_integrity" else "SizeMismatch"
                             if rep.get("err", {}).get("variant") != want:
                                 V.violation(res, sig + ":got-" + cls, "wrong declaration must be rejected with %s, got %r" % (want, rep), replay)
                             m = srv.call({"op": "metadata_sync", "cache": cache, "key": KEY})
